@@ -10,8 +10,8 @@ LEVEL = "model_checking"
 
 def plan(tier):
     if tier == "quick":
-        combos = [("spot1+fut", 0, 4), ("spot4+fut", 1, 4), ("fut+fut", 4, 3), ("etf+es", 5, 3), ("spot+spot", 1, 4), ("halfmult", 3, 4),
-                  ("spot1+fut", 4, 3), ("fut+fut", 0, 3), ("etf+es", 1, 3), ("halfmult", 2, 4), ("spot4+fut", 5, 3), ("spot+spot", 3, 4)]
+        combos = [("spot1+fut", 0, 4), ("spot4+fut", 1, 3), ("fut+fut", 4, 3), ("etf+es", 5, 3), ("spot+spot", 1, 3), ("halfmult", 3, 4),
+                  ("spot1+fut", 4, 3), ("fut+fut", 0, 3), ("etf+es", 1, 3), ("halfmult", 2, 3), ("spot4+fut", 5, 3), ("spot+spot", 3, 3)]
         return [(u, ledger.FEES[f], d, 0.0) for u, f, d in combos] + [("spot1+fut", ledger.FEES[1], 3, 0.05), ("fut+fut", ledger.FEES[0], 3, 0.05)]
     out = []
     for u in ledger.UNIVERSES:
@@ -27,27 +27,53 @@ def plan(tier):
 
 
 def _unit(u):
-    universe, fee, depth, rate, scale, deposit = u
-    r = ledger.bfs(universe, fee, depth, scale, deposit, ledger.alphabet(), rate=rate)
+    universe, fee, depth, rate, scale, deposit, first = u
+    r = ledger.bfs(universe, fee, depth, scale, deposit, ledger.alphabet(), rate=rate, first_ops=first)
     r["unit"] = (universe, fee, depth, rate)
+    r["split"] = first is not None
     return r
 
 
 def run(tier, pid):
     rep = Report(pid, tier, LEVEL)
     scale, deposit = ledger.palette()
-    units = [(u, f, d, rt, scale, deposit) for (u, f, d, rt) in plan(tier)]
     ops = ledger.alphabet()
+    units = []
+    for (u, f, d, rt) in plan(tier):
+        if d >= (4 if tier == "quick" else 6):
+            # deep units are split by first operation (each part deduplicates on its own) to use all cores
+            for op in ops:
+                units.append((u, f, d, rt, scale, deposit, [op]))
+        else:
+            units.append((u, f, d, rt, scale, deposit, None))
     samples = []
     per_unit = []
+    merged = {}
     for r in pmap(_unit, units):
         rep.add("states", r["states"])
         rep.add("transitions", r["transitions"])
         rep.add("traces_validated_against_impl", r["transitions"])
         rep.add("distinct_observed_nlv", r["distinct_nlv"])
-        per_unit.append({"universe": r["unit"][0], "fee": r["unit"][1], "depth": r["unit"][2], "rate": r["unit"][3],
-                         "states": r["states"], "transitions": r["transitions"],
-                         "frontier_per_depth": r["per_depth"], "capped": r["capped"]})
+        if r["split"]:
+            m = merged.get(r["unit"])
+            if m is None:
+                m = merged[r["unit"]] = {"universe": r["unit"][0], "fee": r["unit"][1], "depth": r["unit"][2], "rate": r["unit"][3],
+                                         "states": 1, "transitions": 0, "frontier_per_depth": [1], "capped": False,
+                                         "split_by_first_operation": True}
+                per_unit.append(m)
+            m["states"] += r["states"] - 1
+            m["transitions"] += r["transitions"]
+            m["capped"] = m["capped"] or r["capped"]
+            for i, n in enumerate(r["per_depth"]):
+                if i == 0:
+                    continue
+                while len(m["frontier_per_depth"]) <= i:
+                    m["frontier_per_depth"].append(0)
+                m["frontier_per_depth"][i] += n
+        else:
+            per_unit.append({"universe": r["unit"][0], "fee": r["unit"][1], "depth": r["unit"][2], "rate": r["unit"][3],
+                             "states": r["states"], "transitions": r["transitions"],
+                             "frontier_per_depth": r["per_depth"], "capped": r["capped"]})
         for vpid, hist, msg in r["violations"]:
             if vpid != pid:
                 continue
@@ -59,7 +85,8 @@ def run(tier, pid):
     rep.set("alphabet", [list(o) for o in ops])
     rep.set("palette", {"scale": scale, "deposit": deposit})
     rep.set("exhaustive", not any(u["capped"] for u in per_unit))
-    rep.set("bound", "every history of at most depth operations over the alphabet, per unit")
+    rep.set("bound", "every history of at most depth operations over the alphabet, per unit; units marked split_by_first_operation "
+                     "deduplicate per first operation, so their state count is an upper bound on the distinct states")
     rep.set("samples", [
         {"universe": "spot1+fut", "history": [["q", 1, 1], ["t", 1, 1.0], ["t", 1, 1.0], ["v"]],
          "meaning": "quote F 100/104, buy 1 F, buy 1 F, value: lock-step ledger comparison after each op"},
